@@ -27,4 +27,13 @@ theorem pureQr_no_hidden_state :
     Gen.Qr.fact_globalWrites = [] ∧ Gen.Qr.fact_aliasAssign = [] ∧ Gen.Qr.fact_fixedArrays = [] ∧ Gen.Qr.fact_receiverWrites = [] := by
   decide
 
+/-- The library routines these packages call are exactly the ones the models were written against (DESIGN §7, item 5):
+    a body that starts to use another routine — `math/bits.Div` instead of `big.Int.DivMod`, `hash/crc32`,
+    `bytes.TrimPrefix`, `strings.HasPrefix` — is outside what the model mirrors, whether or not an input shows it. -/
+theorem pureQr_external_calls :
+    Gen.Root.fact_externalCalls = ["(image.Image).At", "(image.Image).Bounds", "(image.Image).ColorModel", "errors.New", "fmt.Errorf", "image.Rect", "math.Min"] ∧
+    Gen.Utils.fact_externalCalls = ["(*sync.Mutex).Lock", "(*sync.Mutex).Unlock", "image.Rect"] ∧
+    Gen.Qr.fact_externalCalls = ["errors.New", "fmt.Errorf", "image.Pt", "image.Rect", "math.Abs", "math.Ceil", "math.Floor", "math.Min", "math.Modf", "strconv.Atoi", "strings.IndexRune"] := by
+  decide
+
 end BV.Props.PureQr
